@@ -2,7 +2,9 @@ package vapp
 
 import (
 	"encoding/json"
+	"regexp"
 	"sort"
+	"strings"
 	"time"
 )
 
@@ -12,7 +14,109 @@ func parseTime(ts string) (time.Time, error) { return time.Parse(time.RFC3339Nan
 
 // ext decodes the record families added with later subsystems (proposals, trackers,
 // domains, EVM); returns false for an unknown key.
-func (p *projector) ext(k []byte, v []byte) bool { return false }
+var (
+	reProp   = regexp.MustCompile(`^prop(Active|Passed|Failed|Finalized|FinalizeFailed)([0-9a-f]{64})$`)
+	rePropFI = regexp.MustCompile(`^propFunds_i_([0-9a-f]{64})_0lt([0-9a-f]*)$`)
+	rePropFT = regexp.MustCompile(`^propFunds_t_([0-9a-f]{64})$`)
+)
+
+func (p *projector) propName(id string) string {
+	for _, n := range propNames {
+		if string(PropID(n)) == id {
+			return n
+		}
+	}
+	return "x:" + id[:8]
+}
+
+func (p *projector) ext(k []byte, v []byte) bool {
+	s := p.s
+	ks := string(k)
+	for store, pfx := range map[string]string{"ongoing": "etht_", "passed": "ethsuccess_", "failed": "ethfailed_"} {
+		if strings.HasPrefix(ks, pfx) {
+			var r struct {
+				Type          int64
+				State         int64
+				SignedETHTx   []byte
+				Witnesses     []string
+				ProcessOwner  string
+				FinalityVotes []byte
+			}
+			if err := json.Unmarshal(v, &r); err != nil {
+				s.Bad = append(s.Bad, ks[:len(pfx)]+":unparsable")
+				return true
+			}
+			t := TrackerRec{Store: store, Type: r.Type, State: r.State, Owner: p.nameOf0lt(r.ProcessOwner), Votes: []int64{}, Wits: []string{}}
+			for _, b := range r.FinalityVotes {
+				t.Votes = append(t.Votes, int64(b))
+			}
+			for _, w := range r.Witnesses {
+				t.Wits = append(t.Wits, p.nameOf0lt(w))
+			}
+			name := ExtNameByHash(k[len(pfx):]) // the key carries the tracker name (hash of the external transaction)
+			if old, dup := s.Trackers[name]; dup {
+				// the same external transaction backs two tracker records
+				s.Bad = append(s.Bad, "tracker:"+name+":in-"+old.Store+"-and-"+store)
+			}
+			s.Trackers[name] = t
+			return true
+		}
+	}
+	if m := reProp.FindStringSubmatch(ks); m != nil {
+		var r struct {
+			Type     int64           `json:"proposalType"`
+			Status   int64           `json:"status"`
+			Outcome  int64           `json:"outcome"`
+			Proposer string          `json:"proposer"`
+			FundDL   int64           `json:"fundingDeadline"`
+			Goal     json.RawMessage `json:"fundingGoal"`
+			VoteDL   int64           `json:"votingDeadline"`
+			PassPct  int64           `json:"passPercent"`
+			Update   string          `json:"updateGovernanace"`
+		}
+		if err := json.Unmarshal(v, &r); err != nil {
+			s.Bad = append(s.Bad, ks+":unparsable")
+			return true
+		}
+		n := p.propName(m[2])
+		if old, dup := s.Props[n]; dup {
+			s.Bad = append(s.Bad, "proposal:"+n+":in-"+old.Store+"-and-"+m[1])
+		}
+		s.Props[n] = PropRec{Store: m[1], Type: r.Type, Status: r.Status, Outcome: r.Outcome, Proposer: p.nameOf0lt(r.Proposer), FundDL: r.FundDL,
+			VoteDL: r.VoteDL, Goal: p.num(ks+".goal", r.Goal), PassPct: r.PassPct, Update: r.Update}
+		return true
+	}
+	if m := rePropFI.FindStringSubmatch(ks); m != nil {
+		mm(s.PropFunds, p.propName(m[1]), p.name(m[2]), p.num(ks, v))
+		return true
+	}
+	if m := rePropFT.FindStringSubmatch(ks); m != nil {
+		s.PropFundT[p.propName(m[1])] = p.num(ks, v)
+		return true
+	}
+	if strings.HasPrefix(ks, "propVotes_") && len(k) > len("propVotes_")+64+1 {
+		id := ks[len("propVotes_") : len("propVotes_")+64]
+		var r struct {
+			Opinion int64 `json:"opinion"`
+			Power   int64 `json:"power"`
+		}
+		_ = json.Unmarshal(v, &r)
+		val := p.name(Hex(k[len("propVotes_")+64+1:]))
+		n := p.propName(id)
+		if s.PropVotes[n] == nil {
+			s.PropVotes[n] = map[string]VoteRec{}
+		}
+		s.PropVotes[n][val] = VoteRec{Opinion: r.Opinion, Power: r.Power}
+		return true
+	}
+	if strings.HasPrefix(ks, "d_") {
+		return p.domain(ks, v)
+	}
+	if strings.HasPrefix(ks, "keeper_") || strings.HasPrefix(ks, "contracts") || strings.HasPrefix(ks, "evm") {
+		return p.evm(k, v)
+	}
+	return false
+}
 
 func (p *projector) evidenceExt(k string, v []byte) bool {
 	s := p.s
